@@ -105,9 +105,11 @@ def run_one(args):
         shutil.rmtree(wd, ignore_errors=True)
 
 
-def selftest(limit=None, workers=8, seed=1):
+def selftest(limit=None, workers=8, seed=1, fids=None):
     b = build(REPO, UNIT)
     ss = sites(b)
+    if fids is not None:
+        ss = [x for x in ss if x[0] in fids]
     if limit and len(ss) > limit:
         import random
         random.Random(seed).shuffle(ss)
